@@ -32,6 +32,10 @@ fn num_text(r: &mut Rng, dec: &str) -> String {
         let frac = format!("{}{}", "9".repeat(r.usize(5)), 5 + r.below(5));
         return format!("{}{}{}{}", if r.chance(1, 5) { "-" } else { "" }, nines, dec, frac);
     }
+    if r.chance(1, 30) {
+        // small negative values: with few printed digits they print as a (signed) zero
+        return format!("-0{}{}{}", dec, "0".repeat(r.usize(4)), 1 + r.below(9));
+    }
     match r.below(7) {
         0 => format!("{}", r.below(1000)),
         1 => format!("{}{}{}", r.below(100000), dec, r.below(1000)),
